@@ -49,6 +49,9 @@ PROPS = {
     "C15": dict(engine="vtime", level="exploration",
                 quick=dict(batches=48, units=300, wall=75),
                 thorough=dict(batches=480, units=600, wall=1500)),
+    "C19": dict(engine="sysfs", level="fault_enumeration",
+                quick=dict(batches=48, units=6, wall=75),
+                thorough=dict(batches=480, units=12, wall=1500)),
     "C16": dict(engine="threads", level="exploration",
                 quick=dict(batches=48, units=40, wall=80),
                 thorough=dict(batches=480, units=80, wall=1500)),
